@@ -88,7 +88,8 @@ def matrix(f, comp):
     family = [S] + _bases(f, S)
     if S not in f.classes and not any(fn.get("cls") == S for fns in f.by_q.values() for fn in fns):
         raise AnalysisBroken("component class %s vanished" % S)
-    pred = _family_filter(f, comp)
+    pred = _family_filter(f, comp) if comp.get("enums") else (lambda e, n, v: False)
+    callcls = set(comp.get("calls", []))
     # functions of the family, by simple name, most-derived first
     fam_fns = {}
     for cls in family:
@@ -115,6 +116,11 @@ def matrix(f, comp):
             elif x["k"] == "call":
                 c = x["x"]
                 ccls = x.get("ccls")
+                if ccls in callcls and not (c[2] is None or c[2] == ["this"]):
+                    # an *event*: a call on another object whose class is one of the component's event interfaces
+                    code = ccls + "::" + c[1].split("::")[-1]
+                    d.add(code)
+                    sites.setdefault((key, code), []).append("%s:%d" % (fn["file"], x["l"]))
                 if ccls in family and (c[2] is None or c[2] == ["this"]):
                     name = c[1].split("::")[-1]
                     # resolve to the most-derived definition in the family
@@ -154,7 +160,7 @@ def rebaseline(prop, f):
     out = {}
     for comp in r["components"]:
         M, direct, _ = matrix(f, comp)
-        out[comp["class"]] = {"closure": {q: sorted(v) for q, v in sorted(M.items())},
+        out[comp.get("key", comp["class"])] = {"closure": {q: sorted(v) for q, v in sorted(M.items())},
                               "direct": {q: sorted(v) for q, v in sorted(direct.items()) if v}}
     json.dump(out, open(baseline_path(prop), "w"), indent=0, sort_keys=True)
     return out
@@ -172,12 +178,12 @@ def run(rep, f, prop):
     rep.rule(rid, "diagnostic matrix: for each component class and each of its member functions (closed over calls on "
              "the same object), every diagnostic enumerator confirmed on the pinned tree is still emitted on some path; "
              "a lost cell names class, innermost function and code. Components: " +
-             ", ".join("%s[%s]" % (c["class"], c.get("filter", "all")) for c in r["components"]))
+             ", ".join("%s[%s]" % (c["class"], c.get("filter", "events" if c.get("calls") else "all")) for c in r["components"]))
     total_cells = 0
     for comp in r["components"]:
         S = comp["class"]
         M, direct, sites = matrix(f, comp)
-        b = base.get(S)
+        b = base.get(comp.get("key", S))
         if b is None:
             raise AnalysisBroken("no baseline for component %s" % S)
         lost = {}   # code -> [roles]
